@@ -77,14 +77,32 @@ def build_obj(desc, all_a):
     raise ValueError("unknown descriptor %r" % (desc,))
 
 
+class _Timeout(Exception):
+    pass
+
+
+def _alarm(signum, frame):
+    raise _Timeout()
+
+
 def num(v, pt, all_a):
-    """numeric value of a sympy expression at a point (complex as [re, im]); 'nan' / 'err'"""
+    """numeric value of a sympy expression at a point (complex as [re, im]); 'nan' / 'err:...' (also on a 3 s timeout:
+    towers of exponentials do not evaluate)"""
+    import signal
+    signal.signal(signal.SIGALRM, _alarm)
     try:
+        signal.alarm(3)
         z = complex(sympy.sympify(v).evalf(25, subs={all_a[i]: sympy.Float(repr(pt[i]), 30) for i in range(len(all_a))}))
+        signal.alarm(0)
         if z != z:
             return "nan"
+        if abs(z) > 1e250:
+            return "err:huge"
         return [z.real, z.imag]
-    except Exception as e:
+    except BaseException as e:
+        signal.alarm(0)
+        if isinstance(e, (KeyboardInterrupt, SystemExit)):
+            raise
         return "err:" + type(e).__name__
 
 
@@ -306,12 +324,22 @@ def cmd_compose():
                     fm = fish[np.triu_indices(k)]
                     r2 = []
                     for subs in (b, a):
+                        import signal
+                        signal.signal(signal.SIGALRM, _alarm)
                         try:
+                            signal.alarm(5)
                             with np.errstate(all='ignore'):
                                 pn, _ = S.convert_params(list(pt[:k]), fm, list(subs), n=k)
+                            signal.alarm(0)
                             pn = np.atleast_1d(np.array(pn, dtype=complex)).ravel()
-                            r2.append([[float(z.real), float(z.imag)] for z in pn])
-                        except Exception as e:
+                            if not np.all(np.isfinite(pn)):
+                                r2.append("err:nonfinite")
+                            else:
+                                r2.append([[float(z.real), float(z.imag)] for z in pn])
+                        except BaseException as e:
+                            signal.alarm(0)
+                            if isinstance(e, (KeyboardInterrupt, SystemExit)):
+                                raise
                             r2.append("err:" + type(e).__name__)
                     cp.append(r2)
                 rec["cp"] = cp
